@@ -90,9 +90,37 @@ def unbool(s):
     return {"1": True, "0": False}[s]
 
 
+# "the caller changes what it received": while MUT[0] is set (only inside run_mut) every mutable container the
+# library handed back is EMPTIED by the harness once it has been written down (lists cleared, dicts cleared)
+MUT = [False]
+
+
+def _scribble(v, depth=0):
+    if not MUT[0] or depth > 6:
+        return
+    try:
+        if isinstance(v, dict):
+            for x in list(v.values()):
+                _scribble(x, depth + 1)
+            v.clear()
+        elif isinstance(v, list):
+            for x in list(v):
+                _scribble(x, depth + 1)
+            v.clear()
+        elif isinstance(v, bytearray):
+            v[:] = b""
+        elif isinstance(v, set):
+            v.clear()
+    except Exception:
+        pass
+
+
 def lst(f, xs):
+    orig = xs
     xs = list(xs)
-    return ",".join(f(x) for x in xs) if xs else "-"
+    out = ",".join(f(x) for x in xs) if xs else "-"
+    _scribble(orig)
+    return out
 
 
 def unlist(f, s):
@@ -134,14 +162,20 @@ def nodeS(nd):
 
 
 def jsonS(v):
+    out = _jsonS(v)
+    _scribble(v)
+    return out
+
+
+def _jsonS(v):
     if v is None:
         return "n"
     if isinstance(v, str):
         return "s" + sx(v)
     if isinstance(v, (list, tuple)):
-        return "[" + ",".join(jsonS(x) for x in v) + "]"
+        return "[" + ",".join(_jsonS(x) for x in v) + "]"
     if isinstance(v, dict):
-        items = sorted((sx(k), jsonS(x)) for k, x in v.items())
+        items = sorted((sx(k), _jsonS(x)) for k, x in v.items())
         return "{" + ",".join(k + ":" + x for k, x in items) + "}"
     raise TypeError("not a JSON-shaped value: %r" % (v,))
 
@@ -953,11 +987,14 @@ def cli_run(fs, osbytes, argv, keep=None, interrupt_at=None):
             if stdout.startswith("usage:") and "{" not in stdout.replace("{new,", "").replace("{new", ""):
                 return "help", det
             return "nonzero-status-with-output " + sx(stdout[:200]), det
-        if created is not None:
-            if stdout != "":
-                return "file-and-stdout", det
-            return "emit file " + jsonS(json.loads(created)), det
-        return "emit stdout " + jsonS(json.loads(stdout)), det
+        try:
+            if created is not None:
+                if stdout != "":
+                    return "file-and-stdout", det
+                return "emit file " + jsonS(json.loads(created)), det
+            return "emit stdout " + jsonS(json.loads(stdout)), det
+        except ValueError:
+            return "zero-status-output-not-json " + sx((created if created is not None else stdout)[:120]), det
     finally:
         shutil.rmtree(tmp, ignore_errors=True)
 
@@ -1130,6 +1167,19 @@ def run_alt(line):
         ALT_BUFFERS.clear()
         ALT_OBJECTS.clear()
         ALT_WIPED.clear()
+
+
+def run_mut(line):
+    """the same operation twice, the caller EMPTYING every list / dict it was handed back after the first time (see
+    _scribble): the second answer is returned — a library that hands out its own tables or cached results by reference
+    gives itself away"""
+    MUT[0] = True
+    try:
+        first = run_plain(line)
+        second = run_plain(line)
+        return second if second != first else first
+    finally:
+        MUT[0] = False
 
 
 def run_thread(line):
